@@ -367,3 +367,59 @@ def ssl_method(*args):
 def is_ssl_eof_error(exc):
     """_utils.is_ssl_eof_error: SSLEOFError (the string test for Python 3.10's mis-translated errors is not modelled)."""
     return isinstance(exc, ssl.SSLEOFError)
+
+
+class Condition:
+    """Backend condition variable: `async with cond` acquires/releases its lock (suspension point); wait() releases the
+    lock, suspends until notified (other tasks run), and re-acquires it."""
+
+    def __init__(self):
+        self.held = False
+
+    async def __aenter__(self):
+        suspend_point(self)
+        self.held = True
+        return self
+
+    async def __aexit__(self, et, ev, tb):
+        self.held = False
+        return False
+
+    def notify(self, n=1):
+        require(self.held, "notify-with-the-lock-held")
+        return None
+
+    async def wait(self):
+        require(self.held, "wait-with-the-lock-held")
+        self.held = False
+        suspend_point(self)
+        self.held = True
+        return True
+
+
+class TaskGroup:
+    def start_soon(self, coro_func, *args):
+        ghost.tasks_started = ghost.tasks_started + 1
+        return None
+
+
+class Context:
+    def copy(self):
+        return self
+
+    def run(self, func, *args):
+        return func(*args)
+
+
+class WeakCache:
+    """weakref.WeakValueDictionary keyed by client address, seen from one handler invocation: a lookup either finds the
+    entry of this address (`entry`, a symbolic object) or raises KeyError; a store replaces the entry."""
+
+    def __getitem__(self, key):
+        if self.missing:
+            raise KeyError
+        return self.entry
+
+    def __setitem__(self, key, value):
+        self.entry = value
+        self.missing = False
